@@ -95,3 +95,26 @@ DATE_FIELDS = {
     'stdnum.si.emso': _ymd(5, 2, 0),
     'stdnum.za.idnr': _ymd(0, 2, 4),
 }
+
+
+# documented type getters: expected value by length of the canonical number
+TYPE_BY_LENGTH = {
+    ('stdnum.imei', 'imei_type'): {14: 'IMEI', 15: 'IMEI', 16: 'IMEISV'},
+    ('stdnum.isbn', 'isbn_type'): {10: 'ISBN10', 13: 'ISBN13'},
+    ('stdnum.ismn', 'ismn_type'): {10: 'ISMN10', 13: 'ISMN13'},
+}
+
+
+def se_century_rule(v, date, today):
+    """se.personnummer docstring: the dash is changed to a plus the year a person turns 100."""
+    if len(v) != 11 or v[-5] not in '+-':
+        return None
+    age = today.year - date.year
+    if v[-5] == '-' and not (0 <= age < 100):
+        return "'-' means younger than 100 in %d, got birth year %d" % (today.year, date.year)
+    if v[-5] == '+' and not (100 <= age < 200):
+        return "'+' means 100 or older in %d, got birth year %d" % (today.year, date.year)
+    return None
+
+
+CENTURY_RULES = {'stdnum.se.personnummer': se_century_rule}
